@@ -25,7 +25,7 @@ UnitOK(pu, eu)   == SameUnit(pu, eu) \/ NoLabel(pu, eu) \/ Convertible(eu, pu)
 \* the computed quantity expressed in the printed unit
 InUnit(qty, pu)  == IF SameUnit(pu, qty.u) \/ NoLabel(pu, qty.u) \/ ~Convertible(qty.u, pu) THEN qty.x ELSE Convert(qty.x, qty.u, pu)
 \* `tok` (one unit in the last place = q) is `e` rounded to the displayed precision
-Rounds(tok, q, e) == RLeq(RAbs(RSub(tok, e)), RAdd(RDiv(q, 2), RMul("1e-9", RAbs(e))))
+Rounds(tok, q, e) == RLeq(RAbs(RSub(tok, e)), RAdd(RDiv(q, 2), RMul("1e-12", RAbs(e))))
 
 (***************************************************************************)
 (* labelled lines                                                          *)
